@@ -320,6 +320,39 @@ FIXED = [
 ]
 
 
+def raw_specs():
+    """discriminated hierarchies and unions whose members refer back to the base / the union"""
+    R = lambda t: {"$ref": f"#/components/schemas/{t}"}
+    wrap = lambda schemas: {"openapi": "3.1.0", "info": {"title": "t", "version": "1"}, "paths": {}, "components": {"schemas": schemas}}
+    out = []
+    # allOf children of a discriminated base that refer back to the base (mapping is not a dependency edge)
+    out.append(("disc-base-backrefs", wrap({
+        "Asset": {"type": "object", "required": ["kind"], "properties": {"kind": {"type": "string"}, "label": {"type": "string"}},
+                  "discriminator": {"propertyName": "kind", "mapping": {"folder": "#/components/schemas/Folder", "link": "#/components/schemas/Link", "file": "#/components/schemas/FileAsset"}}},
+        "Folder": {"allOf": [R("Asset"), {"type": "object", "properties": {"parent": R("Asset"), "children": {"type": "array", "items": R("Asset")}}}]},
+        "Link": {"allOf": [R("Asset"), {"type": "object", "required": ["target"], "properties": {"target": R("Asset")}}]},
+        "FileAsset": {"allOf": [R("Asset"), {"type": "object", "properties": {"size": {"type": "integer"}}}]}})))
+    # discriminated oneOf (explicit mapping) over an expression tree: the non-recursive member is last in the spec
+    for key, kw in (("disc-oneof-tree", "oneOf"), ("disc-anyof-tree", "anyOf")):
+        out.append((key, wrap({
+            "Expr": {kw: [R("Plus"), R("Minus"), R("Const")], "discriminator": {"propertyName": "op", "mapping": {"plus": "#/components/schemas/Plus", "minus": "#/components/schemas/Minus", "const": "#/components/schemas/Const"}}},
+            "Plus": {"type": "object", "required": ["op", "l", "r"], "properties": {"op": {"type": "string"}, "l": R("Expr"), "r": R("Expr")}},
+            "Minus": {"type": "object", "required": ["op", "x"], "properties": {"op": {"type": "string"}, "x": R("Expr")}},
+            "Const": {"type": "object", "required": ["op", "v"], "properties": {"op": {"type": "string"}, "v": {"type": "number"}}},
+            "Stmt": {"type": "object", "required": ["body"], "properties": {"body": R("Expr")}}})))
+    # implicit mapping by const tags, recursion through an optional member and an array
+    out.append(("disc-const-tags", wrap({
+        "Msg": {"oneOf": [R("Reply"), R("Text")], "discriminator": {"propertyName": "t"}},
+        "Reply": {"type": "object", "required": ["t", "to"], "properties": {"t": {"const": "reply"}, "to": R("Msg"), "thread": {"type": "array", "items": R("Msg")}}},
+        "Text": {"type": "object", "required": ["t"], "properties": {"t": {"const": "text"}, "body": {"type": "string"}, "quoted": R("Msg")}}})))
+    # undiscriminated named union, non-recursive member first
+    out.append(("plain-union-tree", wrap({
+        "Json": {"oneOf": [{"type": "string"}, {"type": "number"}, R("JsonArr"), R("JsonObj")]},
+        "JsonArr": {"type": "object", "required": ["items"], "properties": {"items": {"type": "array", "items": R("Json")}}},
+        "JsonObj": {"type": "object", "properties": {"members": {"type": "object", "additionalProperties": R("Json")}, "first": R("Json")}}})))
+    return out
+
+
 def main(tier, seed, replay=None):
     res = Result("C10", tier, seed)
     vlib.build_repo()
@@ -337,6 +370,7 @@ def main(tier, seed, replay=None):
         graphs += two
         graphs += [random_graph(rng) for _ in range(3000)]
     specs = [("g%d" % i, g, spec_of(g)) for i, g in enumerate(graphs)]
+    specs = [(nm, {"raw": nm}, sp) for nm, sp in raw_specs()] + specs
     for f in sorted(glob.glob(os.path.join(vlib.REPO, "crates/oas3-gen/fixtures/*.json"))):
         if os.path.getsize(f) < (300_000 if tier == "quick" else 20_000_000):
             try:
@@ -390,7 +424,16 @@ def main(tier, seed, replay=None):
         named = {nm: k for k, nm in enumerate(names)}
         clo = closure(deps)
         own = owner_closure(cg, set(named))
+        comp = spec["components"]["schemas"]
+        disc_base = {nm for nm, sc in comp.items() if isinstance(sc, dict) and sc.get("discriminator") and "properties" in sc}
+        for a in disc_base:
+            # the enum of a discriminated base holds its mapped children: not a recorded dependency, boxed unconditionally
+            for (b, st) in cg.get(a, []):
+                if b in named and b != a and st == "val":
+                    viol.append((name, g, spec, f"{name}: variant of the discriminated base {a} holds {b} by value (these variants are not dependency edges and must always be boxed)"))
         for a, ms in own.items():
+            if a in disc_base:
+                continue
             for (b, st) in ms:
                 dist[st] = dist.get(st, 0) + 1
                 if st in ("val", "box"):
@@ -485,8 +528,8 @@ def unsatisfiable(spec):
             if "allOf" in s:
                 parts = list(s["allOf"])
             good = True
-            if "oneOf" in s:
-                good = any((tgt(v) in ok) if tgt(v) else True for v in s["oneOf"])
+            if s.get("oneOf") or s.get("anyOf"):
+                good = any((tgt(v) in ok) if tgt(v) else True for v in (s.get("oneOf") or s.get("anyOf")))
             for p in parts:
                 if tgt(p):
                     if tgt(p) not in ok:
@@ -519,8 +562,13 @@ def default_diverges(spec):
                 continue
             parts = list(s["allOf"]) if "allOf" in s else [s]
             good = True
-            if "oneOf" in s:
-                good = tgt(s["oneOf"][0]) in term
+            vs = s.get("oneOf") or s.get("anyOf")
+            if vs:
+                if s.get("discriminator") and all(tgt(v) for v in vs):
+                    first = sorted(tgt(v) for v in vs)[0]       # tag-dispatching enum: variants in type-name order
+                    good = first in term
+                else:
+                    good = (tgt(vs[0]) in term) if tgt(vs[0]) else True
             for p in parts:
                 if tgt(p):
                     good = good and tgt(p) in term
@@ -538,19 +586,23 @@ def default_diverges(spec):
 
 
 def nested_doc(spec, root, depth):
-    """a document for `root` nesting `depth` levels along the first optional/required reference members"""
+    """a valid document for `root` nesting about `depth` levels along one spine of reference members (None if the
+    schema offers no such document); discriminator tags are filled in from the mapping / const values"""
     schemas = spec["components"]["schemas"]
 
     def tgt(s):
-        return s["$ref"].rsplit("/", 1)[-1] if "$ref" in s else None
+        return s["$ref"].rsplit("/", 1)[-1] if isinstance(s, dict) and "$ref" in s else None
+    tag_of = {}     # child schema -> (property, value)
+    for nm, sc in schemas.items():
+        d = sc.get("discriminator") if isinstance(sc, dict) else None
+        if d and d.get("mapping"):
+            for val, r in sorted(d["mapping"].items()):
+                tag_of.setdefault(r.rsplit("/", 1)[-1], (d["propertyName"], val))
 
     def flat(nm, seen=()):
         s = schemas[nm]
         props, req = {}, []
-        if "oneOf" in s:
-            return None, None
-        parts = list(s["allOf"]) if "allOf" in s else [s]
-        for p in parts:
+        for p in (list(s["allOf"]) if "allOf" in s else [s]):
             if tgt(p):
                 if tgt(p) in seen:
                     return None, None
@@ -564,51 +616,99 @@ def nested_doc(spec, root, depth):
                 req += p.get("required", [])
         return props, req
 
-    def build(nm, dleft):
-        """one deep spine: the first reference member carries the depth, the others stay one level deep"""
+    def children(nm):
+        s = schemas[nm]
+        vs = s.get("oneOf") or s.get("anyOf")
+        if vs:
+            return [v for v in vs]
+        d = s.get("discriminator")
+        if d and d.get("mapping") and "properties" in s:
+            return [{"$ref": r} for _, r in sorted(d["mapping"].items())]
+        return None
+
+    def build(nm, dleft, budget):
+        if budget[0] <= 0:
+            return None
+        budget[0] -= 1
+        s = schemas.get(nm)
+        if not isinstance(s, dict):
+            return None
+        ch = children(nm)
+        if ch is not None:
+            # deep: the first member that yields a document; shallow: prefer primitives, then members in reverse
+            order = ch if dleft > 0 else sorted(ch, key=lambda v: 0 if not tgt(v) else 1)
+            for v in (order if dleft > 0 else list(order) + list(reversed(ch))):
+                if tgt(v):
+                    sub = build(tgt(v), dleft, budget)
+                    if sub is not None:
+                        return sub
+                elif v.get("type") == "string":
+                    return "leaf"
+                elif v.get("type") in ("number", "integer"):
+                    return 7
+            return None
         props, req = flat(nm)
         if props is None:
             return None
-        doc = {"n": max(dleft, 0)}
+        doc = {}
+        if nm in tag_of:
+            doc[tag_of[nm][0]] = tag_of[nm][1]
         spine_used = False
         for pn, ps in props.items():
-            t = tgt(ps)
-            if pn in req and t is None and "oneOf" in ps:
-                doc[pn] = "leaf"
+            if pn in doc:
                 continue
-            if t:
-                if t not in schemas or "oneOf" in schemas[t]:
-                    if pn in req:
+            t = tgt(ps)
+            if "const" in ps:
+                doc[pn] = ps["const"]
+            elif t:
+                if pn in req or dleft > 0:
+                    if dleft <= -4:
                         return None
-                    continue
-                if pn in req:
-                    if dleft <= -3:
-                        return None
-                    sub = build(t, dleft - 1 if not spine_used else min(dleft - 1, 0))
+                    sub = build(t, (dleft - 1) if not spine_used else min(dleft - 1, 0), budget)
                     spine_used = True
                     if sub is None:
-                        return None
+                        if pn in req:
+                            return None
+                        continue
                     doc[pn] = sub
-                elif dleft > 0:
-                    sub = build(t, dleft - 1 if not spine_used else 0)
-                    spine_used = True
-                    if sub is not None:
-                        doc[pn] = sub
-            elif ps.get("type") == "array" and tgt(ps.get("items", {})) and dleft > 0:
-                t2 = tgt(ps["items"])
-                if t2 in schemas and "oneOf" not in schemas[t2]:
-                    sub = build(t2, dleft - 1 if not spine_used else 0)
-                    spine_used = True
-                    if sub is not None:
-                        doc[pn] = [sub]
+            elif ps.get("type") == "array" and tgt(ps.get("items") or {}) and dleft > 0:
+                sub = build(tgt(ps["items"]), (dleft - 1) if not spine_used else 0, budget)
+                spine_used = True
+                if sub is not None:
+                    doc[pn] = [sub]
+            elif pn in req or pn == "n":
+                ty = ps.get("type")
+                if ps.get("oneOf") or ps.get("anyOf"):
+                    doc[pn] = "leaf"
+                elif ty == "string":
+                    doc[pn] = "s"
+                elif ty in ("number", "integer"):
+                    doc[pn] = max(dleft, 0)
+                elif ty == "boolean":
+                    doc[pn] = True
+                elif ty == "array":
+                    doc[pn] = []
+                elif ty == "object":
+                    doc[pn] = {}
+                else:
+                    return None
         return doc
-    return build(root, depth)
+    return build(root, depth, [4000])
+
+
+def strip_tags(x, tags):
+    if isinstance(x, dict):
+        return {k: strip_tags(v, tags) for k, v in x.items() if k not in tags}
+    if isinstance(x, list):
+        return [strip_tags(v, tags) for v in x]
+    return x
 
 
 def arena_part(res, tier, rng, specs, results, dumps, viol, d):
     cand = [i for i, (name, g, spec) in enumerate(specs) if g is not None and results[i][0] == 0]
-    fixed = [i for i in cand if i < len(FIXED)]
-    rest = [i for i in cand if i >= len(FIXED)]
+    n_fixed = len(FIXED) + len(raw_specs())
+    fixed = [i for i in cand if i < n_fixed]
+    rest = [i for i in cand if i >= n_fixed]
     pick = fixed + rng.sample(rest, min(len(rest), 50 if tier == "quick" else 400))
     ar = Arena("c10")
     for i in pick:
@@ -631,7 +731,7 @@ def arena_part(res, tier, rng, specs, results, dumps, viol, d):
                 lines.append(f'("{nm}", "default") => {{ let v = <case_{i}::{nm} as Default>::default(); let s = serde_json::to_string(&v).map(|s| s.len()).unwrap_or(0); println!("DEFAULT {{}}", s); }}')
                 lines.append(f'("{nm}", "roundtrip") => {{ let mut txt = String::new(); std::io::Read::read_to_string(&mut std::io::stdin(), &mut txt).unwrap(); '
                              f'match serde_json::from_str::<case_{i}::{nm}>(&txt) {{ Ok(v) => {{ let back = serde_json::to_value(&v).unwrap(); let orig: serde_json::Value = serde_json::from_str(&txt).unwrap(); '
-                             f'println!("RT {{}}", if back == orig {{ "same" }} else {{ "differs" }}); if back != orig {{ println!("BACK {{}}", back); }} }} Err(e) => println!("RTERR {{}}", e) }} }}')
+                             f'println!("BACK {{}}", back); }} Err(e) => println!("RTERR {{}}", e) }} }}')
             arms.append(f'"{i}" => match (a[2].as_str(), a[3].as_str()) {{ {" ".join(lines)} _ => println!("NOARM") }},')
         return ("fn main() { let a: Vec<String> = std::env::args().collect(); match a[1].as_str() { " + "\n".join(arms) + ' _ => println!("NOCASE") } }')
     ok, failed, err = ar.build_bisect(body, sub="build")
@@ -678,8 +778,19 @@ def arena_part(res, tier, rng, specs, results, dumps, viol, d):
                 viol.append((name, g, spec, f"{name}: <{nm} as Default>::default() did not return (rc={rc}, {se.strip()[-120:]})", cls))
         else:
             n_rt += 1
-            if rc != 0 or so != "RT same":
-                viol.append((name, g, spec, f"{name}: nested document for {nm} (depth 60) did not round-trip: rc={rc} {so[:300]} {se[-120:]}"))
+            tags = {sc["discriminator"]["propertyName"] for sc in spec["components"]["schemas"].values() if isinstance(sc, dict) and sc.get("discriminator")}
+            same = False
+            if rc == 0 and so.startswith("BACK "):
+                try:
+                    # the tag property itself is C14's subject; here the recursive structure must survive
+                    same = strip_tags(json.loads(so[5:]), tags) == strip_tags(json.loads(inp), tags)
+                except Exception:
+                    same = False
+            if not same:
+                # struct-level #[serde(default)] evaluates Default::default() before reading the members: decoding a
+                # type whose Default diverges overflows in the same way (same defect, second symptom)
+                cls = "default-first-variant-recursion" if rc in (-6, 134) and plan[i]["div"] and "overflowed its stack" in se else None
+                viol.append((name, g, spec, f"{name}: nested document for {nm} (depth 60) did not round-trip: rc={rc} {so[:300]} {se[-120:]}", cls))
     res.counts["arena_modules"] = len(ar.cases)
     res.counts["default_calls"] = n_def
     res.counts["default_skipped_unsatisfiable"] = n_skip
